@@ -87,8 +87,9 @@ pub fn run_case(toks: &[&str], em: &mut Emitter) {
         let t = tpkt::Client::new(Link::new(Stream::Raw(pipe.clone())));
         let mut items: Vec<String> = vec![];
         let mut ok = true;
-        if op == "x224_read" {
-            let mut x = x224::Client::verif_new(t, x224::Protocols::ProtocolSSL);
+        if op == "x224_read" || op == "x224_read_rdp" {
+            // (`_rdp`: the client negotiated standard RDP security — deframing does not depend on it)
+            let mut x = x224::Client::verif_new(t, if op == "x224_read_rdp" { x224::Protocols::ProtocolRDP } else { x224::Protocols::ProtocolSSL });
             for _ in 0..k {
                 match x.read() { Ok(p) => items.push(show(p)), Err(_) => { ok = false; break; } }
             }
@@ -182,6 +183,30 @@ pub fn generate(thorough: bool, seed: u64, part: (usize, usize), em: &mut Emitte
             let mut d = vec![0, 0x80, len as u8]; d.extend_from_slice(tail);
             emit(em, "tpkt_read", 2, &d, &[0; 16]);
         }
+    }
+    // 1b. long runs of frames without payload (TPKT length 4, fast-path 2 and 3), alone and between non-empty fast-path
+    //     frames: each is returned as an empty payload of its kind, however many came before
+    if part.0 == 0 {
+        for &(n, mix) in &[(17usize, 0usize), (40, 0), (40, 1), (40, 2), (64, 3)] {
+            let mut data = vec![];
+            for i in 0..n {
+                match (i + mix) % 3 { 0 if mix != 1 => data.extend(enc_slow(&[], 0)), 1 if mix != 0 => data.extend(enc_fast_short(0, &[])), _ => data.extend(&[0x00u8, 0x80, 0x03]) }
+                if mix >= 2 && i % 5 == 4 { data.extend(enc_fast_short((i % 4) as u8 * 0x40, &[i as u8, 1, 2])); }
+            }
+            let k = n + if mix >= 2 { n / 5 } else { 0 };
+            emit(em, "tpkt_read", k, &data, &[]);
+            emit(em, "tpkt_read", k, &data, &[1; 64]);
+        }
+    }
+    // 1c. under standard RDP security: fast-path frames with every secFlags value and payloads of 0..9 bytes, both length forms
+    if part.0 == 0 {
+        for fl in 0..4u8 { for n in 0..10usize { for long in &[false, true] {
+            let body: Vec<u8> = (0..n as u8).collect();
+            let mut d = if *long { let l = n + 3; vec![fl << 6, 0x80 | (l >> 8) as u8, l as u8] } else { vec![fl << 6, (n + 2) as u8] };
+            d.extend(&body); d.extend(enc_fast_short(0, &[7, 7]));
+            emit(em, "x224_read_rdp", 2, &d, &[]);
+            emit(em, "x224_read", 2, &d, &[1; 32]);
+        } } }
     }
     // 2. structured frame sequences under schedules
     let n_struct = if thorough { 20000 } else { 1500 };
